@@ -217,7 +217,7 @@ PROPS.update({
         "theorem_modules": ["FlacVerif.Theorems.C18", "FlacVerif.Theorems.C18Parse"],
         "streams": {"quick": [("comp", ["--cases", 150])], "thorough": [("comp", ["--cases", 4000])], "search": [("comp", ["--cases", 1500])]},
         "profiles": {"quick": ["release", "dev"], "thorough": ["release", "dev"]},
-        "diff_prefix": ["c18."], "oracle_fields": ["o_c18"], "rule": COMP_RULE,
+        "diff_prefix": ["c18.", "c08.count", "c08.len8", "c08.len64"], "oracle_fields": ["o_c18"], "rule": COMP_RULE,
         "trusted_base": ["Model/Verify.lean: decision mirrors of the public constructors and verify impls, tied to datatype.rs / verify.rs by the comp stream (accept/reject on the whole grid, both profiles)",
                          "parse-back of accepted components is decided by the real parser on every accepted case (the parser mirror and its round-trip theorems belong to C15)"],
         "assumptions": ["typed slice arguments (&[u8], &[u32], &[i16]) hold values of their element type; FrameOffset::Frame carries a u32"],
